@@ -1,10 +1,18 @@
 (* C14 — observation printer for the correspondence check: the same line the
    harness subcommand `fmt` prints before the read-back part. *)
-From NV Require Import Base.Show NumFmt.Model.
+From Coq Require Import PrimFloat.
+From NV Require Import Base.Show NumFmt.Model NumFmt.Classify.
 Local Open Scope string_scope.
 
 Definition show_case (o : options) (c : fclass) : string :=
   match display o c with
+  | Panic => "P"
+  | Out s => "F:" ++ s
+  end.
+
+(* the same, with the classification done in the model from the f64 itself *)
+Definition show_case_f64 (o : options) (f : float) (ds : digits) (e10 : Z) : string :=
+  match display_f64 o f ds e10 with
   | Panic => "P"
   | Out s => "F:" ++ s
   end.
